@@ -185,27 +185,38 @@ def rule_sib(ctx):
                     obs.append(bad('SIB-3', inst, 'deprecation is not read from the field\'s directives', node.get('sp', ''), 'deprecation lost for SDL schemas'))
             else:
                 fields = TM.fields_in(t)
-                e = f['e']
-                # shape: if let Some(true) = is_deprecated { Some(reason.clone()) } else { None }
-                good = 'FullTypeFields.is_deprecated' in fields and 'FullTypeFields.deprecation_reason' in fields
-                # the reason must not decide whether the field is deprecated
+                # decide the term for each possible isDeprecated (null / true / false): Some(reason) exactly for true,
+                # and the reason never decides (a null reason still means deprecated)
                 cond_fields = set()
                 for conds, leaf in P.leaves(t):
                     for c in conds:
                         if c[1] is not None:
                             cond_fields |= TM.fields_in(c[1])
-                some_wraps_reason = False
-                for n_ in walk(e):
-                    if n_['k'] == 'call' and n_.get('callee') and n_['callee']['path'].endswith('Some'):
-                        inner = ctx.pv.eval(fn, n_['args'][0], H.sym_env(fn), 0)
-                        if 'FullTypeFields.deprecation_reason' in TM.fields_in(inner):
-                            some_wraps_reason = True
-                if good and 'FullTypeFields.deprecation_reason' not in cond_fields and some_wraps_reason:
-                    obs.append(ok('SIB-3', inst, 'isDeprecated == true -> Some(deprecationReason) (reason may be null)', node.get('sp', '')))
+                verdict = {}
+                undec = None
+                for label, val in (('null', Q.NONE), ('true', True), ('false', False)):
+                    def atoms(x, val=val):
+                        if x[0] == 'field' and x[3] == 'is_deprecated':
+                            return val
+                        return None
+                    try:
+                        leaf = Q.select_leaf(Q.QEval(ctx.pv, [], atoms), t)
+                    except Q.Undecided as ex:
+                        undec = str(ex)
+                        break
+                    is_none = leaf[0] in ('none', 'absent')
+                    verdict[label] = 'None' if is_none else ('Some(reason)' if 'FullTypeFields.deprecation_reason' in TM.fields_in(leaf) and not TM.consts_in(leaf) else 'other')
+                reason_decides = 'FullTypeFields.deprecation_reason' in cond_fields
+                if reason_decides:
+                    obs.append(bad('SIB-3', inst, 'deprecation is not `isDeprecated == true => Some(reason)`: the reason decides whether the field is deprecated (reads %s)'
+                                   % sorted(f_ for f_ in fields if 'eprecat' in f_), node.get('sp', ''), 'a field deprecated without a reason is not deprecated in the JSON rendering'))
+                elif undec:
+                    obs.append(undecided('SIB-3', inst, 'cannot evaluate the deprecation expression (%s): %s' % (undec, P.show(t, 0, 5)[:120]), node.get('sp', '')))
+                elif verdict == {'null': 'None', 'true': 'Some(reason)', 'false': 'None'}:
+                    obs.append(ok('SIB-3', inst, 'isDeprecated == true -> Some(deprecationReason) (reason may be null); null/false -> None', node.get('sp', '')))
                 else:
-                    obs.append(bad('SIB-3', inst, 'deprecation is not `isDeprecated == true => Some(reason)` (reads %s; reason decides: %s; Some(reason): %s)'
-                                   % (sorted(f_ for f_ in fields if 'eprecat' in f_), 'FullTypeFields.deprecation_reason' in cond_fields, some_wraps_reason),
-                                   node.get('sp', ''), 'a field deprecated without a reason is not deprecated in the JSON rendering'))
+                    obs.append(bad('SIB-3', inst, 'deprecation is not `isDeprecated == true => Some(reason)`: isDeprecated null/true/false give %s' % verdict,
+                                   node.get('sp', ''), 'deprecations differ between the JSON and the SDL rendering of a schema'))
     if cnt['sdl'] < 3 or cnt['json'] < 2:
         obs.append(bad('SIB-3', 'floor', 'anchor-missing: StoredField built at %d SDL / %d JSON sites (expected >=3 / >=2: object, extension, interface)' % (cnt['sdl'], cnt['json'])))
     return obs
